@@ -44,6 +44,7 @@ Definition E_NODEFAULT : N := 1364%N.
 Definition E_WRONGVALUE : N := 1366%N.
 Definition E_TOOLONG : N := 1406%N.
 Definition E_BIGINT : N := 1690%N.
+Definition E_LOCKWAIT : N := 1205%N.
 
 (* ---------------------------------------------------------------- three-valued logic *)
 Inductive tri := TT | TF | TU.
@@ -562,7 +563,19 @@ Inductive outcome :=
 | OkMod (affected : Z) (lastid : Z)
 | Fail (e : err).
 
-Record result := { r_state : tstate; r_out : outcome }.
+(* r_locks: the row locks the statement asked for and got, in order (also when
+   it failed afterwards: a failing statement keeps the locks it took) *)
+Record result := { r_state : tstate; r_out : outcome; r_locks : list key }.
+
+(* which keys are locked by somebody else: asking for one is an immediate 1205 *)
+Definition blocker := key -> bool.
+Definition no_block : blocker := fun _ => false.
+
+Fixpoint free_prefix (bl : blocker) (ks : list key) : list key :=
+  match ks with
+  | [] => []
+  | k :: ks' => if bl k then [] else k :: free_prefix bl ks'
+  end.
 
 (* ---- row selection: WHERE, ORDER BY, LIMIT ---- *)
 Definition matches (en : env) (w : option expr) (r : row) : res bool :=
@@ -716,12 +729,15 @@ Definition opt_cols_ok (cols : list column) (w : option expr) : bool :=
 Definition mk_env (sch : schema) (args : list value) : env :=
   {| e_cols := s_cols sch; e_row := []; e_args := args; e_ins := None |}.
 
+Definition select_static_ok (sch : schema) (f : fields) (w : option expr) (o : orderby) : bool :=
+  let cols := s_cols sch in
+  let fl := match f with FList l => l | _ => [] end in
+  all_cols_ok cols fl && opt_cols_ok cols w && all_cols_ok cols (map fst o).
+
 Definition exec_select (sch : schema) (t : tbl) (f : fields) (w : option expr) (o : orderby)
            (lim : limit) (args : list value) : res (list row) :=
-  let cols := s_cols sch in
   let en := mk_env sch args in
-  let fl := match f with FList l => l | _ => [] end in
-  if negb (all_cols_ok cols fl && opt_cols_ok cols w && all_cols_ok cols (map fst o))
+  if negb (select_static_ok sch f w o)
   then Er (EErr E_BADFIELD)
   else
     do sel <- select_rows en w o lim t;
@@ -731,16 +747,30 @@ Definition exec_select (sch : schema) (t : tbl) (f : fields) (w : option expr) (
     | FCount => Ok [[VInt (Z.of_nat (length sel))]]
     end.
 
-(* ---- writes: a fold over the rows of the statement ---- *)
-Record wstate := { w_t : tbl; w_auto : Z; w_aff : Z; w_last : Z }.
+(* SELECT ... FOR UPDATE locks the selected rows (after LIMIT), in result order,
+   before the select list is evaluated *)
+Definition exec_select_l (bl : blocker) (sch : schema) (t : tbl) (f : fields) (w : option expr)
+           (o : orderby) (lim : limit) (forupd : bool) (args : list value) : res (list row) * list key :=
+  if forupd && select_static_ok sch f w o then
+    match select_rows (mk_env sch args) w o lim t with
+    | Ok sel =>
+        if existsb bl (keys sel) then (Er (EErr E_LOCKWAIT), free_prefix bl (keys sel))
+        else (exec_select sch t f w o lim args, keys sel)
+    | Er _ => (exec_select sch t f w o lim args, [])
+    end
+  else (exec_select sch t f w o lim args, []).
 
-(* AUTO_INCREMENT is not transactional: a failing statement keeps the counter *)
-Inductive wres := WOk (s : wstate) | WFail (auto : Z) (e : err).
+(* ---- writes: a fold over the rows of the statement ---- *)
+Record wstate := { w_t : tbl; w_auto : Z; w_aff : Z; w_last : Z; w_locks : list key }.
+
+(* AUTO_INCREMENT is not transactional: a failing statement keeps the counter
+   (and the locks it took) *)
+Inductive wres := WOk (s : wstate) | WFail (auto : Z) (locks : list key) (e : err).
 
 Fixpoint wfold {A} (f : wstate -> A -> wres) (l : list A) (s : wstate) : wres :=
   match l with
   | [] => WOk s
-  | x :: l' => match f s x with WOk s' => wfold f l' s' | WFail a e => WFail a e end
+  | x :: l' => match f s x with WOk s' => wfold f l' s' | WFail a l e => WFail a l e end
   end.
 
 Definition put (k : key) (r : row) (t : tbl) : tbl := ins_sorted (k, r) t.
@@ -778,57 +808,66 @@ Fixpoint apply_sets (en : env) (sets : list (bytes * expr)) (vals : row) : res r
 
 (* one row of an UPDATE / of ON DUPLICATE KEY UPDATE: `inc` is what a changed
    row adds to the affected count *)
-Definition update_row (sch : schema) (en : env) (sets : list (bytes * expr)) (inc : Z)
+Definition update_row (bl : blocker) (sch : schema) (en : env) (sets : list (bytes * expr)) (inc : Z)
            (s : wstate) (kr : key * row) : wres :=
   let '(k, old) := kr in
   match apply_sets en sets old with
-  | Er e => WFail (w_auto s) e
+  | Er e => WFail (w_auto s) (w_locks s) e
   | Ok vals =>
       if row_eqb vals old then WOk s
       else
         let auto' := bump_auto (s_cols sch) vals (w_auto s) in
         let k' := key_of sch vals in
-        if negb (key_eqb k' k) && mem k' (w_t s) then WFail auto' (EErr E_DUP)
+        (* the row lock of the (possibly new) key is taken before the duplicate check *)
+        if bl k' then WFail auto' (w_locks s) (EErr E_LOCKWAIT)
+        else if negb (key_eqb k' k) && mem k' (w_t s) then WFail auto' (w_locks s ++ [k']) (EErr E_DUP)
         else WOk {| w_t := put k' vals (remove k (w_t s)); w_auto := auto';
-                    w_aff := w_aff s + inc; w_last := w_last s |}
+                    w_aff := w_aff s + inc; w_last := w_last s; w_locks := w_locks s ++ [k'] |}
   end.
 
 Definition sets_ok (cols : list column) (sets : list (bytes * expr)) : bool :=
   forallb (fun ce => match find_col (fst ce) cols with Some _ => true | None => false end) sets.
 
-Definition exec_update (sch : schema) (st : tstate) (sets : list (bytes * expr)) (w : option expr)
+Definition exec_update (bl : blocker) (sch : schema) (st : tstate) (sets : list (bytes * expr)) (w : option expr)
            (o : orderby) (lim : limit) (args : list value) : result :=
   let cols := s_cols sch in
   let en := mk_env sch args in
   let t := ts_rows st in
   if negb (sets_ok cols sets && all_cols_ok cols (map snd sets) && opt_cols_ok cols w
            && all_cols_ok cols (map fst o))
-  then {| r_state := st; r_out := Fail (EErr E_BADFIELD) |}
+  then {| r_state := st; r_out := Fail (EErr E_BADFIELD); r_locks := [] |}
   else
     match select_rows en w o lim t with
-    | Er e => {| r_state := st; r_out := Fail e |}
+    | Er e => {| r_state := st; r_out := Fail e; r_locks := [] |}
     | Ok sel =>
-        match wfold (update_row sch en sets 1) sel
-                    {| w_t := t; w_auto := ts_auto st; w_aff := 0; w_last := 0 |} with
+        (* every selected row is locked first, in selection order *)
+        if existsb bl (keys sel)
+        then {| r_state := st; r_out := Fail (EErr E_LOCKWAIT); r_locks := free_prefix bl (keys sel) |}
+        else
+        match wfold (update_row bl sch en sets 1) sel
+                    {| w_t := t; w_auto := ts_auto st; w_aff := 0; w_last := 0; w_locks := keys sel |} with
         | WOk s => {| r_state := {| ts_rows := w_t s; ts_auto := w_auto s |};
-                      r_out := OkMod (w_aff s) 0 |}
-        | WFail a e => {| r_state := {| ts_rows := t; ts_auto := a |}; r_out := Fail e |}
+                      r_out := OkMod (w_aff s) 0; r_locks := w_locks s |}
+        | WFail a l e => {| r_state := {| ts_rows := t; ts_auto := a |}; r_out := Fail e; r_locks := l |}
         end
     end.
 
-Definition exec_delete (sch : schema) (st : tstate) (w : option expr) (o : orderby) (lim : limit)
+Definition exec_delete (bl : blocker) (sch : schema) (st : tstate) (w : option expr) (o : orderby) (lim : limit)
            (args : list value) : result :=
   let cols := s_cols sch in
   let en := mk_env sch args in
   let t := ts_rows st in
   if negb (opt_cols_ok cols w && all_cols_ok cols (map fst o))
-  then {| r_state := st; r_out := Fail (EErr E_BADFIELD) |}
+  then {| r_state := st; r_out := Fail (EErr E_BADFIELD); r_locks := [] |}
   else
     match select_rows en w o lim t with
-    | Er e => {| r_state := st; r_out := Fail e |}
+    | Er e => {| r_state := st; r_out := Fail e; r_locks := [] |}
     | Ok sel =>
+        if existsb bl (keys sel)
+        then {| r_state := st; r_out := Fail (EErr E_LOCKWAIT); r_locks := free_prefix bl (keys sel) |}
+        else
         {| r_state := {| ts_rows := remove_keys (keys sel) t; ts_auto := ts_auto st |};
-           r_out := OkMod (Z.of_nat (length sel)) 0 |}
+           r_out := OkMod (Z.of_nat (length sel)) 0; r_locks := keys sel |}
     end.
 
 (* ---- INSERT ---- *)
@@ -901,32 +940,36 @@ Fixpoint store_all (cols : list column) (vals : row) (auto : Z) : Z * res row :=
   | _, _ => (auto, Ok [])
   end.
 
-Definition insert_row (sch : schema) (en : env) (mode : insmode) (idx : list nat)
+Definition insert_row (bl : blocker) (sch : schema) (en : env) (mode : insmode) (idx : list nat)
            (ondup : list (bytes * expr)) (s : wstate) (es : list expr) : wres :=
   let cols := s_cols sch in
   match (do g <- given_values en cols idx es (map (fun _ => None) cols); fill_defaults cols g) with
-  | Er e => WFail (w_auto s) e
+  | Er e => WFail (w_auto s) (w_locks s) e
   | Ok vals0 =>
       let '(vals1, auto1, last1) := gen_auto cols vals0 (w_auto s) (w_last s) in
       match store_all cols vals1 auto1 with
-      | (auto2, Er e) => WFail auto2 e
+      | (auto2, Er e) => WFail auto2 (w_locks s) e
       | (auto2, Ok vals) =>
           let k := key_of sch vals in
-          let s1 := {| w_t := w_t s; w_auto := auto2; w_aff := w_aff s; w_last := last1 |} in
+          (* the row lock of the new key comes first: an uncommitted row (or an
+             uncommitted delete) of another transaction under that key is a 1205 *)
+          if bl k then WFail auto2 (w_locks s) (EErr E_LOCKWAIT) else
+          let lk := w_locks s ++ [k] in
+          let s1 := {| w_t := w_t s; w_auto := auto2; w_aff := w_aff s; w_last := last1; w_locks := lk |} in
           match lookup k (w_t s) with
           | None => WOk {| w_t := put k vals (w_t s); w_auto := auto2;
-                           w_aff := w_aff s + 1; w_last := last1 |}
+                           w_aff := w_aff s + 1; w_last := last1; w_locks := lk |}
           | Some old =>
               match ondup with
               | _ :: _ =>
-                  update_row sch {| e_cols := cols; e_row := []; e_args := e_args en;
-                                    e_ins := Some vals |} ondup 2 s1 (k, old)
+                  update_row bl sch {| e_cols := cols; e_row := []; e_args := e_args en;
+                                       e_ins := Some vals |} ondup 2 s1 (k, old)
               | [] =>
                   match mode with
                   | InsReplace => WOk {| w_t := put k vals (remove k (w_t s)); w_auto := auto2;
-                                         w_aff := w_aff s + 2; w_last := last1 |}
+                                         w_aff := w_aff s + 2; w_last := last1; w_locks := lk |}
                   | InsIgnore => WOk s1
-                  | InsPlain => WFail auto2 (EErr E_DUP)
+                  | InsPlain => WFail auto2 lk (EErr E_DUP)
                   end
               end
           end
@@ -936,12 +979,12 @@ Definition insert_row (sch : schema) (en : env) (mode : insmode) (idx : list nat
 Definition arity_ok (ncols : nat) (listed : bool) (rows : list (list expr)) : bool :=
   forallb (fun r => Nat.eqb (length r) ncols || (negb listed && Nat.eqb (length r) 0)) rows.
 
-Definition exec_insert (sch : schema) (st : tstate) (mode : insmode) (names : option (list bytes))
+Definition exec_insert (bl : blocker) (sch : schema) (st : tstate) (mode : insmode) (names : option (list bytes))
            (rows : list (list expr)) (ondup : list (bytes * expr)) (args : list value) : result :=
   let cols := s_cols sch in
   let en := mk_env sch args in
   let t := ts_rows st in
-  let fail e := {| r_state := st; r_out := Fail e |} in
+  let fail e := {| r_state := st; r_out := Fail e; r_locks := [] |} in
   match (match names with
          | Some ns => resolve_cols cols ns []
          | None => Ok (seq 0 (length cols))
@@ -954,24 +997,32 @@ Definition exec_insert (sch : schema) (st : tstate) (mode : insmode) (names : op
                     && all_cols_ok cols (map snd ondup))
       then fail (EErr E_BADFIELD)
       else
-        match wfold (insert_row sch en mode idx ondup) rows
-                    {| w_t := t; w_auto := ts_auto st; w_aff := 0; w_last := 0 |} with
+        match wfold (insert_row bl sch en mode idx ondup) rows
+                    {| w_t := t; w_auto := ts_auto st; w_aff := 0; w_last := 0; w_locks := [] |} with
         | WOk s => {| r_state := {| ts_rows := w_t s; ts_auto := w_auto s |};
-                      r_out := OkMod (w_aff s) (w_last s) |}
-        | WFail a e => {| r_state := {| ts_rows := t; ts_auto := a |}; r_out := Fail e |}
+                      r_out := OkMod (w_aff s) (w_last s); r_locks := w_locks s |}
+        | WFail a l e => {| r_state := {| ts_rows := t; ts_auto := a |}; r_out := Fail e; r_locks := l |}
         end
   end.
 
 (* ---------------------------------------------------------------- exec *)
-Definition exec (sch : schema) (st : tstate) (s : stmt) (args : list value) : result :=
+(* exec_l: one statement on the rows its connection sees, `bl` telling which
+   keys other transactions have locked *)
+Definition exec_l (bl : blocker) (sch : schema) (st : tstate) (s : stmt) (args : list value) : result :=
   match s with
-  | SSelect f w o lim _ =>
+  | SSelect f w o lim fu =>
+      let '(r, ks) := exec_select_l bl sch (ts_rows st) f w o lim fu args in
       {| r_state := st;
-         r_out := match exec_select sch (ts_rows st) f w o lim args with
+         r_out := match r with
                   | Ok rows => OkRows rows
                   | Er e => Fail e
-                  end |}
-  | SInsert mode names rows ondup => exec_insert sch st mode names rows ondup args
-  | SUpdate sets w o lim => exec_update sch st sets w o lim args
-  | SDelete w o lim => exec_delete sch st w o lim args
+                  end;
+         r_locks := ks |}
+  | SInsert mode names rows ondup => exec_insert bl sch st mode names rows ondup args
+  | SUpdate sets w o lim => exec_update bl sch st sets w o lim args
+  | SDelete w o lim => exec_delete bl sch st w o lim args
   end.
+
+(* a single connection: nobody else holds a lock *)
+Definition exec (sch : schema) (st : tstate) (s : stmt) (args : list value) : result :=
+  exec_l no_block sch st s args.
